@@ -105,3 +105,20 @@ func (m *Sender) Snapshot() []*RPC {
 	defer m.mu.Unlock()
 	return append([]*RPC(nil), m.Log...)
 }
+
+// SnapshotFrom returns a copy of the log from entry i on, and the length of the
+// whole log (records are shared). For observers that fold the log
+// incrementally: copying a log of several hundred thousand calls at every
+// quiescent point made long runs quadratic.
+func (m *Sender) SnapshotFrom(i int) (tail []*RPC, total int) {
+	m.mu.Lock()
+	defer m.mu.Unlock()
+	total = len(m.Log)
+	if i < 0 {
+		i = 0
+	}
+	if i > total {
+		i = total
+	}
+	return append([]*RPC(nil), m.Log[i:]...), total
+}
